@@ -293,7 +293,7 @@ Definition decode_prop_raw (r : response) (n : xname) : cres xtree :=
   | Some c => CHttp c
   | None =>
     match find_prop n (r_propstats r) with
-    | Some (raw, st) => if st_code st =? 200 then COk raw else CHttp (st_code st)
+    | Some (raw, st) => if Z.quot (st_code st) 100 =? 2 then COk raw else CHttp (st_code st)
     | None => CHttp 404
     end
   end.
@@ -418,21 +418,24 @@ Definition find_collections (fl : flavor) (body : xtree) : cres (list coll_view)
   end.
 
 (** carddav SyncCollection after the exchange: (token, updated, deleted). *)
-Inductive sync_item := Updated (path etag : string) (sec : Z) | Deleted (path : string) | Skipped.
-Definition sync_one (reqpath : string) (r : response) : cres sync_item :=
+Inductive sync_item := Updated (path etag : string) (sec : Z) | Deleted (path : string).
+Definition sync_one (reqpath : string) (r : response) : cres (list sync_item) :=
   match response_path r with
-  | (p, CHttp c) => if c =? 404 then COk (Deleted p) else CHttp c
+  | (_, CHttp c) =>
+    (* a 404 status applies to every href of its response; without an href it is an error *)
+    if (c =? 404) && negb (match r_hrefs r with [] => true | _ => false end)
+    then COk (map Deleted (r_hrefs r)) else CHttp c
   | (_, COther) => COther
   | (p, COk _) =>
-    if String.eqb p reqpath || String.eqb reqpath (p ++ "/") then COk Skipped else
+    if String.eqb p reqpath || String.eqb reqpath (p ++ "/") then COk [] else
     bindc (optional (decode_prop_raw r n_getlastmodified) dec_time zero_sec) (fun sec =>
     bindc (optional (decode_prop_raw r n_getetag) dec_etag ""%string) (fun etag =>
-    COk (Updated p etag sec)))
+    COk [Updated p etag sec]))
   end.
 Definition sync_collection (reqpath : string) (body : xtree) : cres (string * list sync_item) :=
   match dec_multistatus cd body with
   | None => COther
-  | Some ms => bindc (mapC (sync_one reqpath) (ms_responses ms)) (fun l => COk (ms_sync_token ms, l))
+  | Some ms => bindc (mapC (sync_one reqpath) (ms_responses ms)) (fun l => COk (ms_sync_token ms, List.concat l))
   end.
 
 (** ** populateCalendarObject / populateAddressObject, Get…Object, Put…Object *)
